@@ -226,6 +226,25 @@ def one_list(ctx, rng, d, schema, instance):
             check_tree(ctx, case, parent.instance, sub, order)
 
 
+def _lookalike_fixed():
+    out = []
+    for d in (3, 4, 6, 7):
+        for name, outer, inner in (("a/b", "a", "b"), ("a.b", "a", "b"), ("a~1b", "a", "b"), ("/a/b", "", "a"), ("a/0", "a", 0), ("0/1", 0, 1), ("['a']['b']", "a", "b")):
+            T = {"type": "integer"}
+            if isinstance(inner, int):
+                nested = {"items": [T, T]}
+                val = ["x", "y"]
+            else:
+                nested = {"properties": {inner: T}}
+                val = {inner: "x", "ok": 1}
+            if isinstance(outer, int):
+                continue
+            schema = {"properties": {name: T, outer: nested}}
+            for inst in ({name: "x", outer: val}, {outer: val, name: "y"}, {name: "x"}):
+                out.append((d, schema, inst))
+    return out
+
+
 FIXED = [
     (3, {"additionalProperties": False, "properties": {"a": {"required": True}}}, {"b": 1}),
     (3, {"properties": {"a": {"required": True}, "b": {"type": "string"}}, "minProperties": 3, "type": "object",
@@ -271,7 +290,7 @@ def run(ctx):
     impl.quiet()
     rr = random.Random(1717)
     idx = 0
-    for d, schema, inst in FIXED:
+    for d, schema, inst in FIXED + _lookalike_fixed():
         idx += 1
         if ctx.mine(idx):
             one_list(ctx, rr, d, schema, inst)
